@@ -73,6 +73,12 @@ def asm_bases():
         ("asm-sparse", (A.PROTO(2), A.EMPTY_DICT, A.BINPUT(200), A.SBU("k"), A.EMPTY_LIST, A.LONG_BINPUT(70000), A.SETITEM, A.STOP)),
         ("asm-sparse-key0-missing", (A.EMPTY_LIST, A.BINPUT(5), A.BINGET(5), A.TUPLE2, A.STOP)),
         ("asm-memoize-after-put", (A.PROTO(4), A.EMPTY_LIST, A.BINPUT(1), A.EMPTY_LIST, A.MEMOIZE, A.TUPLE2, A.STOP)),
+        # memo slots bound more than once (hand-written pickles, pickles rewritten twice by a tool that parks a value
+        # at a fixed key): the number of memo writes is not the number of slots in use
+        ("asm-slot-rebound", (A.EMPTY_LIST, A.BINPUT(0), A.EMPTY_LIST, A.BINPUT(0), A.BININT1(7), A.APPEND, A.APPEND, A.STOP)),
+        ("asm-slot-rebound-3x", (A.PROTO(2), A.EMPTY_LIST, A.BINPUT(1), A.POP, A.EMPTY_DICT, A.BINPUT(1), A.POP, A.EMPTY_LIST, A.BINPUT(1),
+                                 A.BININT1(5), A.APPEND, A.STOP)),
+        ("asm-slot-rebound-memoize", (A.PROTO(4), A.EMPTY_LIST, A.MEMOIZE, A.EMPTY_LIST, A.BINPUT(0), A.BININT1(7), A.APPEND, A.APPEND, A.STOP)),
         ("asm-effect", hit + (A.STOP,)),
         ("asm-effect-twice", hit + (A.POP,) + hit + (A.STOP,)),
         ("asm-effect-memo", hit + (A.BINPUT(1), A.BINGET(1), A.TUPLE2, A.STOP)),
@@ -538,6 +544,21 @@ def run_shard(ctx):
     blist = [(lab, b) for lab, b in bases(ctx) if gate(b)]
     ctx.agg.count("bases", len(blist))
     second = chained_bases(ctx, f, blist)
+    # third generation: bases the library rewrote twice in run-first mode (both rewrites park the value at the same key)
+    for lab, b in list(blist[:40:4]):
+        if len(b) > 3000:
+            continue
+        try:
+            p3 = f.Pickled.load(b)
+            p3.insert_python_eval("1+1", run_first=True, use_output_as_unpickle_result=False)
+            p3 = f.Pickled.load(p3.dumps())
+            p3.insert_python_eval("2+2", run_first=True, use_output_as_unpickle_result=False)
+            d3 = p3.dumps()
+        except Exception:
+            continue
+        if gate(d3, rewritten=True):
+            second.append((f"rewritten-twice-{lab}", d3))
+            ctx.agg.count("rewritten_twice_bases")
     ctx.agg.count("chained_bases", len(second))
     for label, base in blist + second:
         for mode, opt in MODES:
